@@ -1,7 +1,11 @@
 """C06 — path handling is compositional and notation-independent."""
 from harness.core import Case
 from harness.canon import hx, tx, nats
-from harness.props.bip32_common import IMPL, CLS, rand_index, rand_seed, node_out
+from harness.props.bip32_common import IMPL as _B32_IMPL, CLS, rand_index, rand_seed, node_out
+from harness.props import c19 as _c19
+IMPL = dict(_B32_IMPL)
+IMPL.update({"subpath": _c19.IMPL["subpath"], "substrate": _c19.IMPL["substrate"]})
+ORACLES = getattr(_c19, "ORACLES", None)
 from bip_utils import Bip32PathParser, Bip32Path, Bip32KeyIndex
 
 LEAN_MODULES = ["BipVerif.Props.C06"]
@@ -84,6 +88,15 @@ def gen_nodes(rng, tier):
         ab = rng.random() < 0.6
         yield Case("nodepath", [c, hx(k), hx(cc), depth, idx, hx(fp), tx(spell(rng, elems, ab))],
                    "node-abs" if ab and depth > 0 else "node-path")
+    # Substrate junction paths: parse/print and derivation, blanks and Unicode inside junction names included (they are significant)
+    for sp in ["", "/a", "//hard/soft", "/a ", " /a", "//polkadot//0 ", "//polkadot//0 /1", "/7 ", "/a\n", "/a\t/b", "\u00a0/a", "/a\u3000", " ", "/ ", "// /x", "/a/", "a/b"]:
+        yield Case("subpath", [tx(sp)], "substrate-parse")
+    for _ in range(60 if tier == "quick" else 3000):
+        yield Case("subpath", [tx(_c19.rand_path(rng) + rng.choice(["", "", " ", "\n", "/"]))], "substrate-parse")
+    for i in range(8 if tier == "quick" else 300):
+        seed = bytes(rng.randrange(256) for _ in range(32))
+        path = "".join(rng.choice(["/", "//"]) + rng.choice(["a ", " a", "7 ", "0", "alice", "12\u2003", "x\n", "stash"]) for _ in range(rng.randrange(1, 4)))
+        yield Case("substrate", ["seed", hx(seed), "POLKADOT", tx(path), 99], "substrate-derive")
 
 
 def relations(rng, tier, rpt):
@@ -195,6 +208,8 @@ def relations(rng, tier, rpt):
             parent.ConvertToPublic()
         before = sview(parent)
         j1, j2, j3 = "/a%d" % rng.randrange(100), "/%d" % rng.randrange(10**6), "/stash"
+        if i % 2:      # junction names are any slash-free text: blanks, digits with blanks, Unicode are significant characters
+            j1, j2, j3 = (rng.choice(["/"] if parent.IsPublicOnly() else ["/", "//"]) + rng.choice(["a ", " a", "7 ", " 7", "a\t", "0 ", "x\n", "\u00a0b", "12\u2003", "polkadot ", " "]) for _ in range(3))
         c1 = sview(parent.ChildKey(j1))
         c2 = sview(parent.ChildKey(j2))
         c2_fresh_order = sview(parent.ChildKey(j2))
